@@ -137,15 +137,35 @@ def lemmas(tier, seed):
     stmt = next((st for st in node.body if isinstance(st, _ast.Assign) and isinstance(st.targets[0], _ast.Name) and st.targets[0].id == "parameters"), None)
     allowed = {"self", "node", "Parameters", "Parameter", "get_parameters", "safe_get_annotation", "safe_get_expression", "name", "annotation", "kind", "default",
                "isinstance", "str", "parameters"}
+    vcls = next(c for c in mi.tree.body if isinstance(c, _ast.ClassDef) and c.name == "Visitor")
+    methods = {f.name: f for f in vcls.body if isinstance(f, (_ast.FunctionDef, _ast.AsyncFunctionDef))}
+
+    def reads(tree, extra, depth=0):
+        """Names / attributes a piece of code reads, following private helper methods of the visitor (one level of extraction is a harmless refactoring)."""
+        bad = []
+        for n in _ast.walk(tree):
+            if isinstance(n, _ast.Name) and n.id not in allowed and n.id not in extra:
+                bad.append(n.id)
+            elif isinstance(n, _ast.Attribute) and isinstance(n.value, _ast.Name) and n.value.id in ("self", "node"):
+                text = _ast.unparse(n)
+                if text in ("node.args", "self.current"):
+                    continue
+                if n.value.id == "self" and n.attr in methods and depth < 2:
+                    m = methods[n.attr]
+                    params = {a.arg for a in m.args.args + m.args.kwonlyargs}
+                    local = {x.id for x in _ast.walk(m) if isinstance(x, _ast.Name) and isinstance(x.ctx, _ast.Store)}
+                    bad += reads(_ast.Module(body=m.body, type_ignores=[]), params | local, depth + 1)
+                else:
+                    bad.append(text)
+        return bad
     if stmt is None:
         out.append({"name": "parameters_statement_reads_only_the_signature", "ok": False, "on_fail": "undecided",
                     "detail": "handle_function no longer has a single `parameters = ...` statement; the decomposition of the proof must be revisited"})
     else:
-        read = {n.id for n in _ast.walk(stmt) if isinstance(n, _ast.Name)}
-        attrs = {_ast.unparse(n) for n in _ast.walk(stmt) if isinstance(n, _ast.Attribute)}
-        bad = sorted(read - allowed) + sorted(a for a in attrs if a not in ("node.args", "self.current"))
-        out.append({"name": "parameters_statement_reads_only_the_signature", "ok": not bad,
-                    "detail": "the statement that builds Function.parameters reads only node.args, self.current and the expression builders"
+        bad = sorted(set(reads(stmt, set())))
+        # a side condition of the proof decomposition, not a clause of the property: when the statement changes shape the decomposition is undecided
+        out.append({"name": "parameters_statement_reads_only_the_signature", "ok": not bad, "on_fail": "undecided",
+                    "detail": "the statement that builds Function.parameters (private helper methods followed) reads only node.args, self.current and the expression builders"
                               + (f"; also reads {bad}" if bad else "")})
     out.append(VF.ownership_lemma(idx))
     return out
